@@ -16,7 +16,7 @@ PROP = "C19"
 
 def plan(tier, seed):
     shards = [{"kind": "grid", "part": i, "parts": 8} for i in range(8)]
-    k = 30 if tier == "quick" else 600
+    k = 96 if tier == "quick" else 600
     shards += [{"kind": "random", "seed": seed, "shard": i, "n": 200} for i in range(k)]
     return shards
 
